@@ -14,9 +14,9 @@ from . import tokcommon as T
 ID = "C08"
 LEVEL = "exploration"
 TIERS = {
-    "quick": {"shards": 16, "budget_s": 25, "L": 8, "Li": 6, "max_len_init": 4, "random": 1200, "max_frames": 300,
+    "quick": {"shards": 16, "budget_s": 120, "L": 8, "Li": 6, "max_len_init": 4, "random": 1200, "max_frames": 300,
               "prefix_streams": 150, "prefix_len": 16, "split_cases": 60},
-    "thorough": {"shards": 16, "budget_s": 420, "L": 11, "Li": 9, "max_len_init": 5, "random": 40000, "max_frames": 2000,
+    "thorough": {"shards": 16, "budget_s": 900, "L": 11, "Li": 9, "max_len_init": 5, "random": 40000, "max_frames": 2000,
                  "prefix_streams": 6000, "prefix_len": 40, "split_cases": 4000},
 }
 RULE = ("Instrumented source counts read() calls; at the instant each token reaches the consumer (generator item / callback "
